@@ -484,7 +484,7 @@ def one_phase(rec, r, o, blocks, bsv, clause, concretise, notes):
         notes.append('replay harness does not build: ' + (err or out)[-500:])
         return False
     cmd = ['goto-instrument', '--dfcc', hname, '--enforce-contract', b.fn]
-    for g in b.replace:
+    for g in getattr(b, 'replace_eff', b.replace):
         cmd += ['--replace-call-with-contract', g]
     ctext = open(cfile).read()
     for shim in bsv.SHIM_CONTRACTS + sorted(set(re.findall(r'\b(vec_\w+_eq)\(', ctext[ctext.index('rt/harness.h'):]))):
